@@ -53,6 +53,8 @@ type instDriver struct {
 	convBy    map[uint64]map[string]*convSeen // per round: value key -> best rank
 	convFrom  map[uint64]map[gpbft.ActorID]bool
 	proven    map[string]bool // values for which a delivered message carried a justification
+	decideBy  map[string]map[gpbft.ActorID]bool // value key -> senders whose first DECIDE was for that value
+	decideOf  map[gpbft.ActorID]bool
 }
 
 type convSeen struct {
@@ -117,7 +119,8 @@ func rankKey(f float64) string {
 func newInstDriver(r *rng, members int, subjectPower int64, powers []int64, input *gpbft.ECChain, opts ...gpbft.Option) *instDriver {
 	d := &instDriver{r: r, ctx: context.Background(), backend: signing.NewFakeBackend(), input: input, ct: &chainTok{m: map[string]int64{}},
 		sent: map[string]bool{}, seenC: map[string]*gpbft.ECChain{}, qualityBy: map[gpbft.ActorID]*gpbft.ECChain{},
-		prepBy: map[uint64]map[gpbft.ActorID]*gpbft.ECChain{}, convBy: map[uint64]map[string]*convSeen{}, convFrom: map[uint64]map[gpbft.ActorID]bool{}, proven: map[string]bool{}}
+		prepBy: map[uint64]map[gpbft.ActorID]*gpbft.ECChain{}, convBy: map[uint64]map[string]*convSeen{}, convFrom: map[uint64]map[gpbft.ActorID]bool{}, proven: map[string]bool{},
+		decideBy: map[string]map[gpbft.ActorID]bool{}, decideOf: map[gpbft.ActorID]bool{}}
 	d.t0 = time.Unix(1_700_000_000, 0)
 	d.now = d.t0
 	var entries gpbft.PowerEntries
@@ -340,6 +343,15 @@ func (d *instDriver) record(sender gpbft.ActorID, round uint64, phase gpbft.Phas
 	case gpbft.QUALITY_PHASE:
 		if _, ok := d.qualityBy[sender]; !ok {
 			d.qualityBy[sender] = value
+		}
+	case gpbft.DECIDE_PHASE:
+		if !d.decideOf[sender] {
+			d.decideOf[sender] = true
+			k := ckey(value)
+			if d.decideBy[k] == nil {
+				d.decideBy[k] = map[gpbft.ActorID]bool{}
+			}
+			d.decideBy[k][sender] = true
 		}
 	case gpbft.PREPARE_PHASE:
 		if round < pr.Round {
